@@ -35,6 +35,7 @@ def Res.isValue : Res → Bool
 inductive CloseExc where
   | user                 -- the `before_closed` hook's exception (`close_catchall` off)
   | attributeError       -- `_cleanup` ran a second time: `self._local_root` is None
+  | hook                 -- the service's `on_disconnect` hook raised (after `_cleanup`'s `finally` released everything)
   deriving DecidableEq, Repr
 
 /-- how the `try:` suite of `close()` ended -/
@@ -57,23 +58,29 @@ structure Life where
   outcomes : List (Nat × Res)
   fromPeer : List (Nat × Nat)        -- ghost: (request, payload) of the responses received from the peer
   closeRaised : List CloseExc        -- ghost: what `close()` calls raised
+  hookRaises : Bool                  -- configuration: this side's `on_disconnect` hook raises (user code)
   deriving Repr
 
-def Life.init : Life :=
+def Life.initWith (hookRaises : Bool) : Life :=
   { closed := false, inClose := false, chanClosed := false, hookRuns := 0, cleaned := false,
     tablesCleared := false, issued := [], pending := [], blocked := [], outcomes := [], fromPeer := [],
-    closeRaised := [] }
+    closeRaised := [], hookRaises := hookRaises }
+
+/-- the initial state of a side whose disconnect hook returns normally -/
+def Life.init : Life := Life.initWith false
 
 /-- ```
 def _cleanup(self, _anyway=True):
     if self._closed and not _anyway: return        -- never taken: every caller passes _anyway=True
     self._closed = True
     self._channel.close()
-    self._local_root.on_disconnect(self)           -- AttributeError on a second run: _local_root is None
-    self._request_callbacks.clear(); self._local_objects.clear(); self._proxy_cache.clear(); …
-    self._local_root = None; del self._HANDLERS
+    try:     self._local_root.on_disconnect(self)  -- AttributeError on a second run: _local_root is None
+    finally: self._request_callbacks.clear(); self._local_objects.clear(); self._proxy_cache.clear(); …
+             self._local_root = None; del self._HANDLERS
 ```
-returns the state and whether it raised AttributeError -/
+The clearing is in a `finally`: it happens whatever the hook does; a hook that raises (`hookRaises`) makes
+`_cleanup` raise that exception afterwards (see `finishClose`).  Returns the state and whether this was a
+second run (AttributeError). -/
 def cleanup (l : Life) : Life × Bool :=
   if l.cleaned then ({ l with closed := true, chanClosed := true }, true)
   else ({ l with closed := true, chanClosed := true, hookRuns := l.hookRuns + 1, cleaned := true,
@@ -81,12 +88,14 @@ def cleanup (l : Life) : Life × Bool :=
 
 /-- the rest of `close()` once its `try:` suite has ended with `r`:
 `except EOFError: pass` / `except Exception: if not close_catchall: raise` / `finally: self._cleanup()`.
-Returns the state and what the call raises (an AttributeError from the `finally` replaces the hook's exception). -/
+Returns the state and what the call raises (an exception from the `finally` — AttributeError of a second
+`_cleanup`, or the disconnect hook's own — replaces the `before_closed` hook's). -/
 def finishClose (r : TryRes) (l : Life) : Life × Option CloseExc :=
   match cleanup l with
   | (l', true) => ({ l' with inClose := false }, some .attributeError)
   | (l', false) =>
-    match r with
+    if l.hookRaises then ({ l' with inClose := false }, some .hook)      -- raised out of the `finally`
+    else match r with
     | .hookRaised false => ({ l' with inClose := false }, some .user)
     | _ => ({ l' with inClose := false }, none)
 
